@@ -414,6 +414,27 @@ where
     //         .unwrap_or("unknown")
     // }
 
+    /// Verification hook (compiled only by `cargo kani`): builds a stream by struct literal, without
+    /// reading any token, so that harnesses can install their own buffer contents.
+    #[cfg(kani)]
+    pub(crate) fn verif_from_parts(
+        input: &'t str,
+        file_name: Arc<PathBuf>,
+        token_iter: TokenIter<'t, F>,
+        k: usize,
+        skip_tokens_by_state: &'static [&'static [TerminalIndex]],
+    ) -> Self {
+        Self {
+            k,
+            input,
+            file_name,
+            token_iter,
+            tokens: TokenBuffer::new(),
+            recovering: false,
+            skip_tokens_by_state,
+        }
+    }
+
     /// Sets the token stream in error recovery mode.
     /// In this mode the parser can try to read more tokens even if the end of input is reached.
     /// The token stream will return EOI tokens if the token buffer is empty.
